@@ -208,7 +208,7 @@ def emit_sites(ctx, P, A, rule, scope, classes=("A", "B"), justify=None, where_p
     """one obligation per panic site of the functions in scope.  justify: dict key -> reason (exact keys)"""
     justify = justify or {}
     used_just = set()
-    n = {"A": 0, "B": 0, "U": 0}
+    n = {"A": 0, "B": 0, "U": 0, "M": 0}
     dup = {}
     visited_fns = {nm for (nm, _b) in A.visited}
     for name in sorted(scope):
